@@ -126,7 +126,7 @@ Total == /\ \A k \in Keys : ENABLED Sign(k) /\ ENABLED RemoveSignature(k)
 
 \* sign() files the valid signature of the id under the signer's key
 SignProducesValid ==
-    [][\A k \in Keys : (last' = [op |-> "sign", k |-> k] /\ last' # last) =>
+    [][\A k \in Keys : (last' = [op |-> "sign", k |-> k]) =>
           /\ k \in DOMAIN sigmap' /\ sigmap'[k] = "valid"
           /\ Wit(k, "valid") \in AsSet(wits')]_vars
 
